@@ -130,6 +130,14 @@ def maxIterations : Nat := 0x1000000
 /-- iterations the client is willing to run for a count taken from (unauthenticated) KDC hints -/
 def iterationsAccepted (n : Nat) : Option Nat := if n > maxIterations then none else some n
 
+/-- the number of iterations a 32-bit s2kparams value stands for (RFC 3962 §4, which RFC 8009 §4 refers to):
+    four zero octets mean 2^32 iterations -/
+def iterationsOfParam (p : Nat) : Nat := if p = 0 then 4294967296 else p
+
+/-- before the repair: the value was taken as it is, and PBKDF2 run with a count of zero yields the
+    one-iteration key -/
+def iterationsOfParam_v0 (p : Nat) : Nat := p
+
 /-! ## pac.UPNDNSInfo.Unmarshal: the two fields sliced out of the buffer -/
 
 /-- the slicing after the header: lengths and offsets are 16-bit values from the buffer; the bound check
